@@ -252,3 +252,20 @@ def fate(body, l, classify_call, depth=10, seen=None):
             else:
                 fates.add(verdict)
     return fates
+
+
+def origin_locals(body, l, depth=14, seen=None):
+    """all locals from which local l may derive (backwards through assignments and call arguments)"""
+    seen = seen if seen is not None else set()
+    if l in seen or depth < 0:
+        return seen
+    seen.add(l)
+    for bb, kind, payload in local_defs(body, l):
+        if kind == 'assign':
+            for p in operand_places(payload):
+                origin_locals(body, p['l'], depth - 1, seen)
+        else:
+            for a in payload.get('args', []):
+                if a['k'] != 'const':
+                    origin_locals(body, a['pl']['l'], depth - 1, seen)
+    return seen
